@@ -251,6 +251,12 @@ func (c *w1Client) Do(ctx context.Context, network string, address string, req *
 			reqDelay += extra
 		}
 	}
+	if inst.raw && !dropReq && !call.corrupt && kind == w1KindRecent && call.payload != nil && call.payload.decodeErr == "" &&
+		call.payload.firstRejected >= 0 && amount(w1SaltPause, 4) != 0 {
+		// a raw request with a row the aggregator rejects: its handler pauses right after that row (until the
+		// next second boundary, then a few yields), the window in which other handlers meet the rejected key
+		call.pause = &w1Pause{target: call.payload.firstRejected + 1, yields: int(amount(w1SaltPauseYields, 4))}
+	}
 	dup := !dropReq && kind <= w1KindHistoric && hit(w1SaltDup, f.dup)
 	var dupCall *w1Call
 	if dup {
